@@ -21,6 +21,21 @@ def _out_dir(pid, tier):
   return d
 
 
+def _fuzz_spec(pid):
+  """Reads FUZZ_CHECKS / FUZZ_RUNS from the module source (no import here)."""
+  import re
+  path = os.path.join(_env.VERIF_DIR, 'vf', 'props', f'{pid.lower()}.py')
+  with open(path) as f:
+    src = f.read()
+  m = re.search(r'^FUZZ_CHECKS\s*=\s*(\[[^\]]*\])', src, re.M)
+  if not m:
+    return None
+  checks = json.loads(m.group(1).replace("'", '"'))
+  r = re.search(r'^FUZZ_RUNS\s*=\s*(\{[^}]*\})', src, re.M)
+  runs = json.loads(r.group(1).replace("'", '"')) if r else {'quick': 2000, 'thorough': 100000}
+  return {'checks': checks, 'runs': runs}
+
+
 def run(pid, tier, seed, jobs, only=None, scale=1.0, soft_cap=None):
   t0 = time.time()
   out = _out_dir(pid, tier)
@@ -37,8 +52,26 @@ def run(pid, tier, seed, jobs, only=None, scale=1.0, soft_cap=None):
     log = open(os.path.join(out, f'shard_{i}.log'), 'w')
     procs.append((i, subprocess.Popen(cmd, cwd=_env.VERIF_DIR, env=env,
                                       stdout=log, stderr=subprocess.STDOUT), log))
+  # Optional second engine (Atheris / libFuzzer) for modules that declare it.
+  fuzz = []
+  spec = _fuzz_spec(pid)
+  if spec and not only:
+    runs = int(spec['runs'].get(tier, 0) * scale)
+    for j, cname in enumerate(spec['checks']):
+      if runs <= 0:
+        break
+      fout = os.path.join(out, f'fuzz_{j}.json')
+      corpus = os.path.join(out, f'fuzz_corpus_{j}')
+      os.makedirs(corpus, exist_ok=True)
+      cmd = [PY, '-m', 'vf.fuzz', pid, '--check', cname, '--runs', str(runs),
+             '--seed', str(seed * 1000 + j + 1), '--out', fout, '--tier', tier,
+             '--corpus', corpus]
+      log = open(os.path.join(out, f'fuzz_{j}.log'), 'w')
+      fuzz.append((j, subprocess.Popen(cmd, cwd=_env.VERIF_DIR, env=env, stdout=log,
+                                       stderr=subprocess.STDOUT), log, fout, corpus))
   hard_cap = {'quick': 45 * 60, 'thorough': 8 * 3600}[tier]
   harness_errors = []
+  fuzz_notes = []
   for i, p, log in procs:
     try:
       rc = p.wait(timeout=max(1, hard_cap - (time.time() - t0)))
@@ -57,13 +90,29 @@ def run(pid, tier, seed, jobs, only=None, scale=1.0, soft_cap=None):
     if os.path.exists(path):
       with open(path) as f:
         shards.append(json.load(f))
+  for j, p, log, fout, corpus in fuzz:
+    try:
+      p.wait(timeout=max(1, hard_cap - (time.time() - t0)))
+    except subprocess.TimeoutExpired:
+      p.kill()
+    log.close()
+    shutil.rmtree(corpus, ignore_errors=True)
+    if os.path.exists(fout):
+      with open(fout) as f:
+        fj = json.load(f)
+      if fj.get('skipped'):
+        fuzz_notes.append(fj['skipped'])
+      else:
+        shards.append({'pid': pid, 'shard': f'fuzz{j}', 'checks': [fj], 'replays': []})
+    else:
+      fuzz_notes.append(f'fuzz process {j} produced no output')
   meta = next((sh['meta'] for sh in shards if sh.get('meta')), None)
   if meta is None and not harness_errors:
     harness_errors.append('no shard produced module meta')
-  return merge(pid, tier, seed, meta, shards, harness_errors, time.time() - t0)
+  return merge(pid, tier, seed, meta, shards, harness_errors, time.time() - t0, fuzz_notes)
 
 
-def merge(pid, tier, seed, meta, shards, harness_errors, wall):
+def merge(pid, tier, seed, meta, shards, harness_errors, wall, fuzz_notes=()):
   known = {e['id']: e for e in findings.load_open(pid)}
   per_check = {}
   failures = {}   # (check, clause) -> failure
@@ -165,6 +214,7 @@ def merge(pid, tier, seed, meta, shards, harness_errors, wall):
                   'max_shard_wall_s': pc['wall_s'],
               } for name, pc in per_check.items()},
           'shards': len(shards),
+          'fuzz_notes': list(fuzz_notes),
       },
       'assumptions': (meta or {}).get('assumptions', []),
       'wall_s': round(wall, 2),
